@@ -265,6 +265,7 @@ _public_ int m_mod_ps_subscribe(m_mod_t *mod, const char *topic, m_src_flags fla
                 if (old_sub->flags == flags) {
                     /* Only update userptr */
                     old_sub->userptr = userptr;
+                    regfree(&regex);
                     return 0;
                 }
                 /*
@@ -277,7 +278,10 @@ _public_ int m_mod_ps_subscribe(m_mod_t *mod, const char *topic, m_src_flags fla
 
         /* Store new sub as ref'd memory */
         ev_src_t *sub = m_mem_new(sizeof(ev_src_t), subscribtions_dtor);
-        M_ALLOC_ASSERT(sub);
+        if (!sub) {
+            regfree(&regex);
+            return -ENOMEM;
+        }
 
         ps_src_t *ps_src = &sub->ps_src;
         sub->type = M_SRC_TYPE_PS;
